@@ -175,6 +175,11 @@ def jobs(tier):
                                 send_only=so, ard="sym" if sym_ard else ards[n % 3], **({"ackpl_opt": True} if so == "mix" else {})),
                            cost=(fr_max + 1) * arc_max * len(hist) ** 2 * (0.1 if (ask or not aa0) else 1)
                            * (8 if sym_ard else 1)))
+    # the same contract on the stripped-down driver (rf24_lite.RF24; C20 states its parity with the full driver in detail)
+    for hist, fr_max, arc_max in ((("send", "send", "send"), 0, 1), (("send", "resend"), 1, 2), (("sendlist",), 1, 2)):
+        out.append(Job("send-resend-history-lite-driver", h_history,
+                       dict(hist=list(hist), fr_max=fr_max, arc_max=arc_max, aa0=True, ask=False, ackpl=2, send_only="mix", ard=1500,
+                            driver="lite", ackpl_opt=True), cost=40))
     if tier == "thorough":
         for lat in (1, 2):
             for hist in (("send",), ("send", "resend"), ("send", "send")):
